@@ -16,11 +16,6 @@ CLAIMED = {
             "sets (unbounded); the variant of ResultSet the theorems speak about is extracted from result.py on every run; the model is "
             "run against the real classes on generated families (structural equality incl. key order) and the spec against the real output.",
             "DESIGN.md §4.1, §5 C12", ""),
-    "C01": ("Coq proof (_partial: lazy-logging re-quoting kernel; lifting + further kernels pending merge) + search over seeds x variants x all codemods through the real application route",
-            "Theorems C01_requote_lexes / C01_requote_refuted (StrLit kernel, unbounded over literal pieces) tied to lazy_logging.py by shape and by a "
-            "differential against the real codemod and CPython's lexer; every registered codemod's local contract 'parseable in => parseable out' is "
-            "searched on ~550 generated programs per run plus CLI sequences. _partial: no theorem covers unmodelled transformers.",
-            "DESIGN.md §5 C01", "CPython compile() is the definition of 'parses'."),
 }
 
 REASON_PENDING = "model and theorems for this property are not built yet in this development; no check is registered rather than an unsound one"
